@@ -16,7 +16,16 @@ import numpy as np
 from .perutil import fmt_date, fmt_period, parse_period_token
 
 # expression tuples: ("c", k) | ("v", w, pt, add) | ("o1", o, a) | ("o2", o, a, b) | ("f", id, a)
-# pt: "same" | "this_year" | "first_month" | "last_month" | "last_year" | "off:<n>:<unit>"
+# pt: "same" | "this_year" | "first_month" | "last_month" | "last_year" | "off:<n>:<unit>" | "fx:<period token>"
+# reserved forms (extended language, only generated when asked for through `features`):
+#   ("o1", 900, ("v", w, pt, False))   floor(population(w, pt(period), options=[DIVIDE]))
+#   ("o1", 901, ("v", i, pt, False))   parameters(pt(period)).<parameter i>
+#   ("o2", 99, a, ("f", id, ("c", 0))) `a` is evaluated, THEN fault `id` raises (a failure after the dependencies completed);
+#                                      at the root of a formula the failure is the ENGINE's: the formula returns an array of
+#                                      the wrong length / of strings, refused when the result is cast or stored
+OP_DIVIDE = 900
+OP_PARAM = 901
+OP_FIRST = 99          # binary code: the first operand (the second one is evaluated for its effect)
 
 ENUM_SIZE = 5
 
@@ -46,6 +55,8 @@ class SysCase:
     roles: list = field(default_factory=list)    # role index of each person in its household (empty = everybody role 0); see ROLES
     role_variant: int = 0                        # which role table the household entity is built with (ROLE_VARIANTS); role
                                                  # indices always refer to the entity's FLATTENED roles
+    params: list = field(default_factory=list)   # dated parameters: params[i] = [(start ordinal, value), ...]
+    outputs: list = field(default_factory=list)  # `calculate_output` attribute of each variable: 0 none, 1 calculate_output_add, 2 ..._divide
 
 
 def derive(c: "SysCase", **changes) -> "SysCase":
@@ -73,7 +84,16 @@ def to_line(c: SysCase, no_store_override=None) -> str:
     roles = list(getattr(c, "roles", None) or [])
     t = (["sim", "P", str(c.nP), "G", str(c.nG), "M"] + [str(m) for m in c.mem]
          + (["RL"] + [str(r) for r in roles] if roles else [])          # optional field: absent = everybody role 0
-         + ["MSL", str(c.msl), "V", str(len(c.vars))])
+         + ["MSL", str(c.msl)])
+    params = list(getattr(c, "params", None) or [])
+    if params:                                                           # optional field
+        t += ["PAR", str(len(params))]
+        for tbl in params:
+            t += [str(len(tbl))] + [str(x) for sv in tbl for x in sv]
+    outputs = list(getattr(c, "outputs", None) or [])
+    if outputs:                                                          # optional field
+        t += ["OUT", str(len(outputs))] + [str(k) for k in outputs]
+    t += ["V", str(len(c.vars))]
     for i, v in enumerate(c.vars):
         ns = v.no_store if no_store_override is None else no_store_override(i, v)
         t += [str(v.entity), v.vtype, v.unit, str(v.dflt), "1" if v.neutralized else "0",
@@ -85,7 +105,10 @@ def to_line(c: SysCase, no_store_override=None) -> str:
         t += [str(v), tok] + [str(x) for x in vals]
     t += ["R", str(len(c.reqs))]
     for r in c.reqs:
-        t += [r[0]] + [str(x) for x in r[1:]]
+        if r[0] == "set":
+            t += ["set", str(r[1]), r[2]] + [str(x) for x in r[3]]
+        else:
+            t += [r[0]] + [str(x) for x in r[1:]]
     return " ".join(t)
 
 
@@ -221,13 +244,29 @@ def _f2(o, x, y):
         return np.where(x != 0, y, 0)
     if o == 8:
         return np.where(x != 0, 0, y)
-    return x
+    return x          # OP_FIRST and unknown codes: the first operand
 
 
 class _Ctx:
     def __init__(self, case):
         self.case = case
         self.armed = set()
+        self.parameters_at = None      # the `parameters` callable handed to the formula being run
+
+
+def param_name(i: int) -> str:
+    """parameter i: top-level `p<i>`, or (odd i) `g.p<i>` inside a node"""
+    return f"g.p{i}" if i % 2 else f"p{i}"
+
+
+def _read_param(ctx: "_Ctx", i: int, q):
+    """parameters(q).<parameter i>, with the spellings a formula may use for the instant and the access"""
+    h = (i + len(ctx.case.vars)) % 3
+    arg = q if h == 0 else (q.start if h == 1 else str(q.start))
+    node = ctx.parameters_at(arg)
+    for part in param_name(i).split("."):
+        node = getattr(node, part) if (i + h) % 2 == 0 else node[part]
+    return node
 
 
 def _compile(e, E: int, ent: int, ctx: _Ctx):
@@ -259,8 +298,42 @@ def _compile(e, E: int, ent: int, ctx: _Ctx):
                 return _to_int_array(pop.simulation.household(name, q, **kw))
             raise RuntimeError("group variable read from a person formula outside a projection")
         return f
+    if k == "o1" and e[1] == OP_DIVIDE and e[2][0] == "v":
+        _, w, pt, _add = e[2]
+        name = f"v{w}"
+
+        def f(pop, period, name=name, pt=pt):
+            from openfisca_core.populations import DIVIDE
+            q = _transform(pt, period)
+            if ent == E:
+                x = pop(name, q, options=[DIVIDE])
+            elif E == 1 and ent == 0:
+                x = pop.members(name, q, options=[DIVIDE])
+            elif E == 0 and ent == 1:
+                x = pop.simulation.household(name, q, options=[DIVIDE])
+            else:
+                raise RuntimeError("group variable read from a person formula outside a projection")
+            return np.floor(np.asarray(x, dtype=np.float64) if x.dtype.kind in "bi" else x).astype(np.int64)
+        return f
+    if k == "o1" and e[1] == OP_PARAM and e[2][0] == "v":
+        _, i, pt, _add = e[2]
+
+        def f(pop, period, i=i, pt=pt):
+            val = _read_param(ctx, i, _transform(pt, period))
+            n = pop.count if ent == E else (pop.members.count if ent == 0 else pop.simulation.household.count)
+            return np.full(n, val, dtype=np.int64)
+        return f
     if k == "o1":
         _, o, a = e
+        if o == 2 and E == 0 and ent == 0 and a[0] == "o1" and a[1] == OP_DIVIDE and a[2][0] == "v":
+            _, w, pt, _add = a[2]
+            name = f"v{w}"
+
+            def f(pop, period, name=name, pt=pt):
+                from openfisca_core.populations import DIVIDE
+                x = pop.household(name, _transform(pt, period), options=[DIVIDE])
+                return np.floor(np.asarray(x, dtype=np.float64) if x.dtype.kind in "bi" else x).astype(np.int64)
+            return f
         if o == 2 and E == 0 and ent == 0 and a[0] == "v":
             _, w, pt, add = a
             name = f"v{w}"
@@ -350,14 +423,30 @@ def build_system(case: SysCase, ctx: _Ctx | None = None):
             attrs["default_value"] = int(v.dflt)
         if v.end is not None:
             attrs["end"] = dt.date.fromordinal(v.end).isoformat()
+        out_kind = (list(getattr(case, "outputs", None) or []) + [0] * len(case.vars))[i]
+        if out_kind:
+            from openfisca_core import simulations as _sims
+            attrs["calculate_output"] = _sims.calculate_output_add if out_kind == 1 else _sims.calculate_output_divide
         for j, (start, e) in enumerate(v.formulas):
-            fe = _compile(e, v.entity, v.entity, ctx)
+            engine_fault = None
+            if _is_post_fail(e) and e[3][1] % 3 != 0:
+                # the failure is the engine's: the formula returns a result it must refuse
+                engine_fault = e[3][1]
+                fe = _compile(e[2], v.entity, v.entity, ctx)
+            else:
+                fe = _compile(e, v.entity, v.entity, ctx)
             ret = _RET_DTYPES[(i + j) % len(_RET_DTYPES)]
             variant = (3 * i + 5 * j + len(case.vars)) % 4
+            if uses_params(e) and variant % 2 == 0:
+                variant += 1                          # `parameters` is the third positional argument
 
-            def make(fe=fe, ret=ret, vtype=v.vtype, variant=variant, const=(e[1] if e[0] == "c" else None)):
+            def make(fe=fe, ret=ret, vtype=v.vtype, variant=variant, const=(e[1] if e[0] == "c" else None), engine_fault=engine_fault):
                 def result(pop, period):
                     x = fe(pop, period)
+                    if engine_fault is not None and engine_fault in ctx.armed:
+                        if engine_fault % 3 == 2 and vtype in ("int", "float"):
+                            return np.array(["abc"] * len(x))          # cannot be cast to the declared dtype
+                        return x[:-1].astype(ret)                         # one value short
                     if vtype == "enum":            # integer indices: Simulation._cast_formula_result encodes them
                         return x.astype(np.int64)
                     if vtype == "date":            # ordinals -> dates
@@ -375,6 +464,7 @@ def build_system(case: SysCase, ctx: _Ctx | None = None):
                     return x.astype(ret)
                 if variant % 2 == 1:
                     def formula(pop, period, parameters):      # three positional arguments
+                        ctx.parameters_at = parameters
                         return result(pop, period)
                 else:
                     def formula(pop, period):                  # exactly two positional arguments
@@ -396,7 +486,34 @@ def build_system(case: SysCase, ctx: _Ctx | None = None):
     for i, v in enumerate(case.vars):
         if v.neutralized:
             tbs.neutralize_variable(f"v{i}")
+    params = list(getattr(case, "params", None) or [])
+    if params:
+        from openfisca_core.parameters import ParameterNode
+        data: dict = {}
+        for i, tbl in enumerate(params):
+            leaf = {"values": {dt.date.fromordinal(st).isoformat(): {"value": val} for st, val in tbl}}
+            node = data
+            parts = param_name(i).split(".")
+            for part in parts[:-1]:
+                node = node.setdefault(part, {})
+            node[parts[-1]] = leaf
+        tbs.parameters = ParameterNode("", data=data)
     return tbs, ctx, E5
+
+
+def _is_post_fail(e) -> bool:
+    return e[0] == "o2" and e[1] == OP_FIRST and e[3][0] == "f" and e[3][2] == ("c", 0)
+
+
+def uses_params(e) -> bool:
+    k = e[0]
+    if k == "o1":
+        return (e[1] == OP_PARAM and e[2][0] == "v") or uses_params(e[2])
+    if k == "o2":
+        return uses_params(e[2]) or uses_params(e[3])
+    if k == "f":
+        return uses_params(e[2])
+    return False
 
 
 def build_simulation(case: SysCase, tbs, E5, configure=None):
@@ -465,8 +582,8 @@ def values_too_large(out: str) -> bool:
     DESIGN section 4): such cases are not compared"""
     res = out.split("|")[0]
     for r in res.split(";"):
-        if r.startswith("ok:"):
-            if any(abs(int(x)) >= EXACT_LIMIT for x in r[3:].split("#")[0].split(",") if x):
+        if r.startswith("ok:") and not r.startswith("ok:~"):
+            if any(abs(int(x)) >= EXACT_LIMIT for x in r[3:].split("#")[0].split("/")[0].split(",") if x):
                 return True
     return False
 
@@ -490,7 +607,9 @@ def known_entries(case: SysCase, sim) -> list:
     return sorted(set(out))
 
 
-BAD_PERIOD_TEXTS = ["2020-13", "2018-02-30", "month:2018-01:x", "fortnight:2018-01", "2018-W54", "month:2018-01:1:1", "", "2018-1"]
+# period arguments no entry point accepts: unparsable texts, and objects of a kind that is not a period at all
+BAD_PERIOD_TEXTS = ["2020-13", "2018-02-30", "month:2018-01:x", "fortnight:2018-01", "2018-W54", "month:2018-01:1:1", "", "2018-1",
+                    2018.5, [2018], (1, 2), b"2018-01"]
 
 
 def request_period(case: SysCase, idx: int, tok: str):
@@ -505,9 +624,80 @@ def request_period(case: SysCase, idx: int, tok: str):
     return p
 
 
-def run_real(case: SysCase, configure=None, after_request=None):
-    """-> (protocol answer, sim, per-request dtype problems)"""
-    tbs, ctx, E5 = build_system(case)
+UNIT_WEIGHT = {"weekday": 100, "week": 200, "day": 100, "month": 200, "year": 300, "eternity": 400}
+
+
+def div_target(var: Var, tok: str):
+    """DIVIDE, from the documentation of `calculate_divide` and the calendar (independent of the code): the token of
+    the definition-period-long period around the start of `tok` and the number of `tok`-units it is made of; None
+    when the request is not allowed (variable shorter than the period, eternal side, size other than 1)"""
+    import calendar
+    u, d, n = tok.split("/")
+    if var.unit == "eternity" or u == "eternity" or int(n) != 1 or UNIT_WEIGHT[var.unit] < UNIT_WEIGHT[u]:
+        return None
+    y, m, dd = (int(x) for x in d.split(","))
+    # a year is made of 52 whole weeks (365 // 7), hence of 364 weekdays; a month of 4 whole weeks, and of as many
+    # weekdays as days
+    if var.unit == "year":
+        c = f"year/{y},1,1/1"
+        den = {"year": 1, "month": 12, "day": 366 if calendar.isleap(y) else 365, "week": 52, "weekday": 364}[u]
+    elif var.unit == "month":
+        c = f"month/{y},{m},1/1"
+        den = {"month": 1, "day": calendar.monthrange(y, m)[1], "week": 4, "weekday": calendar.monthrange(y, m)[1]}[u]
+    else:
+        c = f"day/{y},{m},{dd}/1"
+        den = 1
+    return c, den
+
+
+def canon_share(res, den: int) -> str:
+    """a DIVIDE result as exact numerators over the denominator: every element must be EXACTLY the quotient numpy
+    computes for an integer numerator (float32 / int for a float variable, int32 / int -> float64 otherwise);
+    anything else is printed as it is (and differs from the model's answer)"""
+    res = np.asarray(res)
+    nums = []
+    for r in res.tolist():
+        x = int(round(float(r) * den))
+        want = (np.float32(x) / den) if res.dtype == np.float32 else (np.float64(x) / den)
+        if res.dtype.type(want) != res.dtype.type(r):
+            return "~" + ",".join(repr(float(v)) for v in res.tolist()) + f"/{den}"
+        nums.append(str(x))
+    return ",".join(nums) + f"/{den}"
+
+
+def trace_log(case: SysCase, roots) -> str:
+    """the calculations recorded under the given roots of the real FullTracer, chronologically (a calculation before the
+    ones it opens): `<v>@<period>=<values | E>><read>+<read>...` joined by `&`.  A read the engine refuses before it
+    starts (unknown variable, a period that is not one definition period long) is an `Expr.bad` in the model, which has
+    no node: such leaves are left out below the root (the root itself is always listed)"""
+    items = []
+
+    def key(node):
+        return f"{node.name[1:]}@{fmt_period(node.period)}"
+
+    def refused(node):
+        v = int(node.name[1:])
+        if v >= len(case.vars):
+            return True
+        var = case.vars[v]
+        return var.unit != "eternity" and (str(node.period.unit) != var.unit and getattr(node.period.unit, "value", None) != var.unit
+                                           or node.period.size != 1)
+
+    def walk(node):
+        kids = [ch for ch in node.children if not (ch.value is None and not ch.children and refused(ch))]
+        val = "E" if node.value is None else canon_array(node.value)
+        items.append(f"{key(node)}={val}>" + "+".join(key(ch) for ch in kids))
+        for ch in kids:
+            walk(ch)
+    for root in roots:
+        walk(root)
+    return "&".join(items)
+
+
+def run_real(case: SysCase, configure=None, after_request=None, on_reads=None, system=None):
+    """-> (protocol answer, sim, per-request dtype problems); `on_reads(sim)` answers a `reads` request; `system` is an
+    already built (tbs, ctx, E5)"""
+    tbs, ctx, E5 = system or build_system(case)
     sim = build_simulation(case, tbs, E5, configure)
     outs = []
     problems = []
@@ -521,13 +711,14 @@ def run_real(case: SysCase, configure=None, after_request=None):
             outs.append("-")
             continue
         if r[0] == "reads":
-            outs.append("T:?")
+            outs.append(on_reads(sim) if on_reads else "T:?")
             continue
         if r[0] == "badp":
             # a period text that cannot be parsed: an error, and the simulation is as before
             try:
                 txt = BAD_PERIOD_TEXTS[(len(outs) + r[1]) % len(BAD_PERIOD_TEXTS)]
-                res = sim.calculate(f"v{r[1]}", txt) if len(outs) % 2 else sim.calculate_add(f"v{r[1]}", txt)
+                entry = [sim.calculate_add, sim.calculate, sim.calculate_divide, sim.calculate_output][len(outs) % 4]
+                res = entry(f"v{r[1]}", txt)
                 o = "ok:" + canon_array(res)
             except Exception:
                 o = "ERR"
@@ -535,12 +726,54 @@ def run_real(case: SysCase, configure=None, after_request=None):
                 o += "#STATE"
             outs.append(o)
             continue
+        if r[0] in ("get", "del", "set"):
+            import warnings
+            try:
+                with warnings.catch_warnings():
+                    warnings.simplefilter("ignore")
+                    if r[0] == "get":
+                        a = sim.get_array(f"v{r[1]}", request_period(case, len(outs), r[2]))
+                        o = "g:none" if a is None else "g:" + canon_array(a)
+                    elif r[0] == "del":
+                        sim.delete_arrays(f"v{r[1]}", None if r[2] == "*" else request_period(case, len(outs), r[2]))
+                        o = "-"
+                    else:
+                        var = case.vars[r[1]] if r[1] < len(case.vars) else Var()
+                        sim.set_input(f"v{r[1]}", request_period(case, len(outs), r[2]), _input_array(var, r[3], E5))
+                        o = "-"
+            except Exception as exc:
+                o = classify(exc)
+            if sim.tracer.stack or sim.invalidated_caches:
+                o += "#STATE"
+            outs.append(o)
+            if after_request:
+                after_request(sim, r, o)
+            continue
         kind, v, tok = r
+        want_log = kind == "tcalc"
+        if want_log:
+            kind = "calc"
+            roots_before = len(sim.tracer.trees) if hasattr(sim.tracer, "trees") else None
         try:
             p = request_period(case, len(outs), tok)
-            res = sim.calculate(f"v{v}", p) if kind == "calc" else sim.calculate_add(f"v{v}", p)
-            o = "ok:" + canon_array(res)
-            if v < len(case.vars):
+            okind = (list(getattr(case, "outputs", None) or []) + [0] * (v + 1))[v] if kind == "out" else None
+            if kind == "div" or okind == 2:
+                res = sim.calculate_divide(f"v{v}", p) if kind == "div" else sim.calculate_output(f"v{v}", p)
+                tgt = div_target(case.vars[v], tok) if v < len(case.vars) else None
+                o = "ok:" + (canon_share(res, tgt[1]) if tgt else "~unexpected")
+            elif kind == "out":
+                res = sim.calculate_output(f"v{v}", p)
+                o = "ok:" + canon_array(res)
+                kind = "add" if okind == 1 else "calc"
+            else:
+                res = sim.calculate(f"v{v}", p) if kind == "calc" else sim.calculate_add(f"v{v}", p)
+                o = "ok:" + canon_array(res)
+            if (kind in ("add", "div") or okind == 2) and isinstance(res, np.ndarray) and res.dtype.kind in "iuf":
+                # the array handed out by calculate_add / calculate_divide is the caller's (a sum, a quotient): overwriting
+                # it must not reach any stored value (a total accumulated INTO the first sub-period's cached array, a
+                # quotient computed in place, would show in the later answers and in the final store)
+                res[...] = 77
+            if v < len(case.vars) and kind != "div" and okind != 2:
                 want = tbs.get_variable(f"v{v}").dtype
                 if case.vars[v].vtype == "enum":
                     # the declared type is the enumeration; the integer width of the index array is not
@@ -554,10 +787,15 @@ def run_real(case: SysCase, configure=None, after_request=None):
             o = classify(exc)
         if sim.tracer.stack or sim.invalidated_caches:
             o += "#STATE"
+        if want_log:
+            o += "#L:" + (trace_log(case, sim.tracer.trees[roots_before:]) if roots_before is not None else "?")
         outs.append(o)
         if after_request:
             after_request(sim, r, o)
-    known = ",".join(f"{k}={v}" for k, v in known_entries(case, sim))
+    try:
+        known = ",".join(f"{k}={v}" for k, v in known_entries(case, sim))
+    except Exception as exc:     # a stored value that cannot be read back
+        known = f"#UNREADABLE:{type(exc).__name__}: {str(exc)[:120]}"
     return ";".join(outs) + "|" + known, sim, problems
 
 
@@ -567,6 +805,7 @@ def run_real(case: SysCase, configure=None, after_request=None):
 MONTHS = ["month/2017,12,1/1", "month/2018,1,1/1", "month/2018,2,1/1", "month/2018,3,1/1", "month/2018,4,1/1"]
 YEARS = ["year/2017,1,1/1", "year/2018,1,1/1"]
 DAYS = ["day/2018,1,1/1", "day/2018,1,31/1", "day/2018,2,1/1", "day/2017,12,31/1"]
+WEEKS = ["weekday/2018,1,31/1", "weekday/2017,12,31/1", "week/2018,1,1/1", "week/2018,1,29/1"]     # DIVIDE requests only
 POOL = {"month": MONTHS, "year": YEARS, "day": DAYS, "eternity": ["eternity/-1,-1,-1/-1"]}
 REQ_POOL = {"month": MONTHS, "year": YEARS, "day": DAYS, "eternity": MONTHS[:2] + YEARS[:1] + DAYS[:1]}
 STARTS = [1, 1, 1, dt.date(2017, 1, 1).toordinal(), dt.date(2018, 1, 1).toordinal(), dt.date(2018, 2, 1).toordinal(),
@@ -653,9 +892,78 @@ def _role_wrap(o, a):
     return ("o1", o, ("o1", 3, a)) if 40 <= o < 50 else ("o1", o, a)
 
 
+def compatible_divide(target_unit: str, caller_unit: str) -> list:
+    """period transforms under which `population(w, pt(period), options=[DIVIDE])` is a valid request for a variable of
+    `target_unit` from a formula running for a period of `caller_unit` (the requested period is one unit long and not
+    longer than the variable's definition period)"""
+    if caller_unit == "eternity":
+        if target_unit == "year":
+            return ["fx:" + t for t in (MONTHS[1], YEARS[1], DAYS[0])]
+        if target_unit == "month":
+            return ["fx:" + t for t in (MONTHS[1], DAYS[1])]
+        return ["fx:" + DAYS[0]] if target_unit == "day" else []
+    if target_unit == "year":
+        return {"year": ["same", "last_year", "this_year"], "month": ["same", "last_month", "first_month", "off:-2:month", "this_year"],
+                "day": ["same", "off:-1:day", "first_month", "this_year"]}[caller_unit]
+    if target_unit == "month":
+        return {"year": ["first_month", "last_month"], "month": ["same", "last_month", "off:1:month"], "day": ["same", "first_month", "off:-1:day"]}[caller_unit]
+    if target_unit == "day":
+        return ["same", "off:-1:day"] if caller_unit == "day" else []
+    return []
+
+
+# what the extended generator may add (`features`): "divide" DIVIDE reads, "params" parameter reads,
+# "post_fail" failures after the dependencies completed (needs fault_ids)
+FEATURES = [None]      # set by gen_case for the duration of one generation (None = the plain language)
+
+
+def _feature_atom(rng, vars_, ent, caller_unit, allowed, fault_ids, nparams):
+    """a DIVIDE read or a parameter read, or None"""
+    feat = FEATURES[0]
+    u = rng.random()
+    if "divide" in feat and u < 0.12:
+        cands = [j for j in range(len(vars_)) if allowed(j) and vars_[j].vtype in ("int", "float", "bool")
+                 and compatible_divide(vars_[j].unit, caller_unit)]
+        same = [j for j in cands if vars_[j].entity == ent]
+        if rng.random() < 0.04:
+            # a DIVIDE request the code refuses: a variable shorter than the requested period, or an eternal one
+            bad = [j for j in range(len(vars_)) if allowed(j) and vars_[j].entity == ent
+                   and (UNIT_WEIGHT[vars_[j].unit] < UNIT_WEIGHT.get(caller_unit, 0) or vars_[j].unit == "eternity")]
+            if bad and caller_unit != "eternity":
+                return ("o1", OP_DIVIDE, ("v", rng.choice(bad), "same", False))
+            # ... or an ADD request the code refuses: a variable longer than the requested period, or an eternal one
+            bad = [j for j in range(len(vars_)) if allowed(j) and vars_[j].entity == ent
+                   and (UNIT_WEIGHT[vars_[j].unit] > UNIT_WEIGHT.get(caller_unit, 999) or vars_[j].unit == "eternity")]
+            if bad and caller_unit != "eternity":
+                return ("v", rng.choice(bad), "same", True)
+        if same and rng.random() < 0.75:
+            j = rng.choice(same)
+            return ("o1", OP_DIVIDE, ("v", j, rng.choice(compatible_divide(vars_[j].unit, caller_unit)), False))
+        other = [j for j in cands if vars_[j].entity != ent]
+        if other:
+            j = rng.choice(other)
+            inner = ("o1", OP_DIVIDE, ("v", j, rng.choice(compatible_divide(vars_[j].unit, caller_unit)), False))
+            return ("o1", 2, inner) if ent == 0 else ("o1", 1, inner)
+        return None
+    if "params" in feat and nparams and 0.12 <= u < 0.24:
+        i = rng.randrange(nparams)
+        if caller_unit == "eternity":
+            pt = "fx:" + rng.choice(MONTHS + YEARS)
+        else:
+            pt = rng.choice(["same", "same", "same", "this_year", "last_year", "first_month", "last_month"])
+        if rng.random() < 0.02:
+            i = nparams + 2                       # a parameter that does not exist
+        return ("o1", OP_PARAM, ("v", i, pt, False))
+    return None
+
+
 def rand_expr(rng, vars_, i, depth, ent, caller_unit, allowed, fault_ids=None, bad_rate=0.0):
     """expression on entity `ent` for variable i; `allowed(j)` says whether variable j may be read"""
     def atom():
+        if FEATURES[0]:
+            fa = _feature_atom(rng, vars_, ent, caller_unit, allowed, fault_ids, FEATURES[0].get("nparams", 0))
+            if fa is not None:
+                return fa
         cands = [j for j in range(len(vars_)) if allowed(j) and vars_[j].entity == ent and _compat(vars_[j], caller_unit)]
         if bad_rate and rng.random() < bad_rate:
             if rng.random() < 0.5:
@@ -703,7 +1011,10 @@ def rand_expr(rng, vars_, i, depth, ent, caller_unit, allowed, fault_ids=None, b
     if fault_ids is not None and rng.random() < 0.15:
         fid = len(fault_ids)
         fault_ids.append(fid)
-        e = ("f", fid, e)
+        if FEATURES[0] and "post_fail" in FEATURES[0] and rng.random() < 0.4:
+            e = ("o2", OP_FIRST, e, ("f", fid, ("c", 0)))       # the failure comes AFTER the dependencies completed
+        else:
+            e = ("f", fid, e)
     return e
 
 
@@ -779,6 +1090,11 @@ def gen_vars(rng, n, spiral=False, cycle=False, fault_ids=None, bad_rate=0.0, un
                 terms.append(("v", j, rng.choice(["last_month", "last_month", "off:-2:month", "last_month", "off:-2:month", "off:1:month"]), False))
             e = ("c", rng.randint(1, 7))
             for t in terms:
+                if fault_ids is not None and FEATURES[0] and "spiral_faults" in FEATURES[0] and rng.random() < 0.25:
+                    # a failure point inside the spiral: before the read, or after it completed
+                    fid = len(fault_ids)
+                    fault_ids.append(fid)
+                    t = ("f", fid, t) if rng.random() < 0.5 else ("o2", OP_FIRST, t, ("f", fid, ("c", 0)))
                 e = ("o2", 0, e, ("o1", 150 + rng.choice([1, 1, 1, 2]), t))
             v.formulas.append((1, e))
     if cycle:
@@ -838,15 +1154,99 @@ def gen_requests(rng, vars_, k, wrong=0.08, add=0.12):
     return reqs
 
 
-def gen_case(rng, kind="ranked", msl=1, nreq=None, fault_ids=None, bad_rate=0.0) -> SysCase:
+PARAM_STARTS = [dt.date(2015, 1, 1).toordinal(), dt.date(2017, 1, 1).toordinal(), dt.date(2017, 7, 1).toordinal(), dt.date(2018, 1, 1).toordinal(),
+                dt.date(2018, 1, 15).toordinal(), dt.date(2018, 2, 1).toordinal(), dt.date(2018, 3, 1).toordinal()]
+
+
+def gen_params(rng) -> list:
+    """1-4 dated parameters, each with 1-3 values; most are defined from 2015 on, some only from a date inside the
+    requested range (reading them earlier raises ParameterNotFoundError)"""
+    out = []
+    for _ in range(rng.randint(1, 4)):
+        starts = sorted(rng.sample(PARAM_STARTS[1:], rng.randint(1, 3)))
+        if rng.random() < 0.7:
+            starts[0] = PARAM_STARTS[0]
+        tbl = [(st, rng.randint(-4, 9)) for st in starts]
+        rng.shuffle(tbl)
+        out.append(tbl)
+    return out
+
+
+def gen_case(rng, kind="ranked", msl=1, nreq=None, fault_ids=None, bad_rate=0.0, features=None) -> SysCase:
+    """`features` (a set of names, see FEATURES) switches the extended language on; without it the generator
+    draws exactly what it always drew (C11 and the older streams depend on it)"""
     nP, nG, mem = population(rng)
     n = rng.randint(3, 9) if kind != "spiral" else rng.randint(2, 5)
+    params = gen_params(rng) if features and "params" in features else []
     ROLE_OPS_ON[0] = kind != "spiral"
+    FEATURES[0] = dict({f: 1 for f in features}, nparams=len(params)) if features else None
     try:
         vars_ = gen_vars(rng, n, spiral=(kind == "spiral"), cycle=(kind == "cycle"), fault_ids=fault_ids, bad_rate=bad_rate)
     finally:
         ROLE_OPS_ON[0] = True
+        FEATURES[0] = None
     inputs = gen_inputs(rng, vars_, nP, nG, rate=0.12 if kind == "spiral" else 0.25)
     reqs = gen_requests(rng, vars_, nreq or rng.randint(3, 8), wrong=0.0 if kind == "spiral" else 0.08)
+    if features and "requests" in features:
+        reqs = extend_requests(rng, vars_, reqs, nP, nG, inputs, mutate="mutate" in features)
     roles = gen_roles(rng, nP, nG, mem) if kind != "spiral" and rng.random() < 0.8 else []
-    return SysCase(nP, nG, mem, msl, vars_, inputs, reqs, roles=roles)
+    outputs = []
+    if features and "requests" in features:
+        outputs = [(rng.choice([0, 0, 1, 2]) if v.vtype in ("int", "float", "bool") and v.unit != "eternity" else 0) for v in vars_]
+    return SysCase(nP, nG, mem, msl, vars_, inputs, reqs, roles=roles, params=params, outputs=outputs)
+
+
+def gen_values(rng, v: Var, n: int) -> list:
+    if v.vtype == "bool":
+        return [rng.randint(0, 1) for _ in range(n)]
+    if v.vtype == "enum":
+        return [rng.randrange(ENUM_SIZE) for _ in range(n)]
+    if v.vtype == "date":
+        return [rng.randint(1, 400) for _ in range(n)]
+    if v.vtype == "str":
+        return [rng.randint(0, 30) for _ in range(n)]
+    return [rng.randint(-5, 40) for _ in range(n)]
+
+
+def extend_requests(rng, vars_, reqs, nP, nG, inputs=(), mutate=False):
+    """the other top-level entry points mixed into a request sequence: calculate_divide (valid and refused), requests for
+    a variable that does not exist, get_array (never computes), delete_arrays of COMPUTED values (they are recomputed);
+    with `mutate`: set_input and delete_arrays of inputs between requests (the inputs are no longer fixed)"""
+    out = []
+    with_input = {iv for (iv, _, _) in inputs}
+    has_formula = [i for i, v in enumerate(vars_) if v.formulas and not v.neutralized and i not in with_input]
+    for r in reqs:
+        out.append(r)
+        u = rng.random()
+        i = rng.randrange(len(vars_))
+        v = vars_[i]
+        if u < 0.18 and v.vtype in ("int", "float", "bool"):
+            pool = {"year": MONTHS + YEARS + DAYS + WEEKS, "month": MONTHS + DAYS + WEEKS, "day": DAYS + WEEKS[:2], "eternity": MONTHS}[v.unit]
+            tok = rng.choice(pool)
+            if rng.random() < 0.08:
+                tok = rng.choice(YEARS + ["month/2018,1,1/2", "eternity/-1,-1,-1/-1"])     # mostly refused
+            out.append(("div", i, tok))
+        elif u < 0.24:
+            out.append((rng.choice(["calc", "add", "div", "get", "out"]), len(vars_) + rng.randint(0, 3), rng.choice(MONTHS)))
+        elif u < 0.30:
+            # calculate_add the guards refuse (a period shorter than the definition period, an eternal variable, the
+            # eternal period), or calculate_output (it forwards to calculate / calculate_add / calculate_divide)
+            if rng.random() < 0.5:
+                out.append(("add", i, rng.choice({"year": MONTHS + DAYS, "month": DAYS, "day": ["eternity/-1,-1,-1/-1"],
+                                                  "eternity": MONTHS + YEARS}[v.unit] + ["eternity/-1,-1,-1/-1"])))
+            else:
+                out.append(("out", i, rng.choice(REQ_POOL[v.unit] + YEARS + MONTHS[:2] + DAYS[:1])))
+        elif u < 0.40:
+            out.append(("get", i, rng.choice(REQ_POOL[v.unit] if rng.random() < 0.8 else MONTHS + YEARS)))
+        elif u < 0.50 and has_formula:
+            j = rng.choice(has_formula)
+            w = vars_[j]
+            tok = rng.choice(REQ_POOL[w.unit] + (YEARS if w.unit in ("month", "day") else []) + ["*"])
+            out.append(("del", j, tok))
+        elif mutate and u < 0.62:
+            n = nP if v.entity == 0 else nG
+            tok = rng.choice(POOL[v.unit] if rng.random() < 0.85 else YEARS + MONTHS[:1] + DAYS[:1] + POOL["eternity"])
+            out.append(("set", i, tok, gen_values(rng, v, n)))
+        elif mutate and u < 0.68:
+            out.append(("del", i, rng.choice(POOL[v.unit] + ["*"])))
+    return out
